@@ -779,6 +779,17 @@ def oracle(ctx):
     cases = [dict(c) for c in WITNESS_CASES]
     cases += [c for c in getattr(ctx, "corr_bad", [])]          # inputs on which model and implementation differed
     evaluate(ctx, cases)
+    # the small deterministic streams first: every BY part x every frequency with repeated / unsorted members in every
+    # container spelling; INTERVAL < 1
+    sp = spelling_cases()
+    ctx.count("oracle_spelling_cases", len(sp))
+    evaluate(ctx, sp)
+    iv = interval_cases()
+    ctx.count("oracle_interval_cases", len(iv))
+    evaluate(ctx, iv)
+    if len(unknown_violations(ctx)) >= 3:
+        ctx.note("oracle stopped after the spelling / interval streams: failing inputs found")
+        return
     full = ctx.budget(0, 1) == 1
     sw = sweep_cases(full)
     ctx.count("oracle_sweep_cases", len(sw))
@@ -786,12 +797,6 @@ def oracle(ctx):
         evaluate(ctx, sw[i:i + 1000])
         if len(unknown_violations(ctx)) >= 3:
             break
-    sp = spelling_cases()
-    ctx.count("oracle_spelling_cases", len(sp))
-    evaluate(ctx, sp)
-    iv = interval_cases()
-    ctx.count("oracle_interval_cases", len(iv))
-    evaluate(ctx, iv)
     amb = ambient_cases(ctx, "oracle-ambient", ctx.budget(40, 800))
     ctx.count("oracle_ambient_firstweekday_cases", len(amb))
     evaluate(ctx, amb)
